@@ -225,6 +225,17 @@ def r2_r3_gating(chk, prog):
             k = ectx.const_str_of(t.args[1])
             if k == "bytes":
                 hdr.extend(ectx.tracker.track(t.dest.local, is_bool=True).pos_edges(0))
+        # combinator spelling: headers().get(ACCEPT_RANGES).and_then(..to_str().ok()).map_or(false, |v| v.contains("bytes"))
+        for bb, t in ectx.calls("core::option::Option::map_or", "core::option::Option::is_some_and", "core::option::Option::is_some_and"):
+            is_map_or = t.is_call_to("core::option::Option::map_or")
+            if is_map_or and not (t.args[1].is_const and t.args[1].const_int == 0):
+                continue
+            cctx = closure_ctx(prog, ectx, t.args[2] if is_map_or else t.args[1])
+            if cctx is None:
+                continue
+            ret = cctx.origins.of_local(0)
+            if ret and all(is_call(o, "core::str::<impl str>::contains") and cctx.const_str_of(o.extra.args[1]) == "bytes" for o in ret):
+                hdr.extend(ectx.tracker.track(t.dest.local, is_bool=True).pos_edges(0))
         gets = [t for bb, t in ectx.body.calls() if (t.callee or "").endswith("HeaderMap::get") or "header::map::HeaderMap" in (t.callee or "")]
         p = ectx.cfg.witness_path(sets, hdr)
         chk.require(bool(sets) and bool(hdr) and bool(gets) and p is None, "R3", ectx.fn, "range-support-from-header",
